@@ -85,6 +85,15 @@ pub fn check(sc: &Scenario, res: &RunResult, twin: Option<&RunResult>) -> Vec<Vi
             out.push(v("C11", &format!("failure-not-reported-{}", key), format!("expected {} under {} in {}", key, under, String::from_utf8_lossy(se).chars().take(400).collect::<String>())));
         }
     }
+    // what does not depend on the failed source must still be there: platform and CPU architecture
+    // are known without /proc/cpuinfo
+    if let Some(si) = &dec.sysinfo {
+        if si.platform != 0x8201 || si.arch != 9 {
+            out.push(v("C11", "sysinfo-arch-lost", format!("system info names platform {:#x} architecture {} ({})", si.platform, si.arch, sc.tags.join(","))));
+        }
+    } else {
+        out.push(v("C11", "sysinfo-stream-missing", "no system info stream".into()));
+    }
     // one ReadThreadNameFailed per name the kernel could not deliver
     let k = &d.kernel_after;
     let mut failed_names = 0usize;
